@@ -31,7 +31,7 @@ func TestMain(m *testing.M) {
 		childMain()
 		return
 	}
-	kit.TestMain(m, 8000, 40000)
+	kit.TestMain(m, 4000, 40000)
 }
 
 func TestC14(t *testing.T) {
@@ -39,9 +39,12 @@ func TestC14(t *testing.T) {
 		ID:    "C14",
 		Level: "exploration",
 		Rule: "a case is a style registry (1-10 generated styles, optionally on top of the predefined registry; every style carries a drawn subset of the 18 formatting " +
-			"elements with values that encode the defining style; based-on edges drawn as chains, trees, diamonds, missing parents, links into the predefined styles and - unless the " +
+			"elements with values that encode the defining style, and every element that has several attributes - spacing before/after/line/lineRule, indentation firstLine/left/right, " +
+			"border sides and their val/color/sz/space, shading fill/val, font ascii/eastAsia/hAnsi/cs, the optional value of underline and snapToGrid - populates all of them or a drawn " +
+			"non-empty subset, independently at every level; based-on edges drawn as chains, trees, diamonds, missing parents, links into the predefined styles and - unless the " +
 			"cycle finding is open - self-loops and cycles) plus queried ids (every generated id, predefined ids, unknown ids). Non-trivial: some query has a based-on chain of length >= 2 " +
-			"on which an element is inherited from an ancestor or an ancestor's element is overridden. Distinct: based-on vector + per-query (chain length, chain end, inherited, overridden).",
+			"on which an element is inherited from an ancestor or an ancestor's element is overridden. Distinct: based-on vector + per-query (chain length, chain end, inherited, overridden, " +
+			"elements whose nearest definition lacks an attribute a farther one has).",
 		Gen:       genCase,
 		Run:       run,
 		Findings:  findings,
@@ -54,6 +57,12 @@ func TestC14(t *testing.T) {
 		MustSee: map[string]float64{
 			"depth>=3": 0.15, "depth>=6": 0.02, "missing-parent": 0.05, "inherit:depth>=2": 0.10, "override": 0.20,
 			"predefined": 0.15, "into-predefined": 0.05, "via:quick": 0.10, "via:custom": 0.10, "shared-parent": 0.05, "query:unknown": 0.20,
+			"partial-element": 0.50, "full-element": 0.50, "bare-element": 0.05,
+			"partial:spacing": 0.15, "partial:indentation": 0.15, "partial:borders": 0.15, "partial:shading": 0.10, "partial:font": 0.15,
+			"partial-over-ancestor": 0.25, "partial-over-ancestor:spacing": 0.05, "partial-over-ancestor:indentation": 0.05,
+			"partial-over-ancestor:borders": 0.05, "partial-over-ancestor:shading": 0.03, "partial-over-ancestor:font": 0.05,
+			"partial-over-ancestor:underline": 0.01, "partial-over-ancestor:snapToGrid": 0.01,
+			"partial-over-full-parent": 0.10, "partial-spacing-over-full-parent": 0.02, "inherit-partial-element": 0.20,
 		},
 		Fixed: fixedCases,
 	})
@@ -99,7 +108,7 @@ var coins = func() [9][]bool {
 
 func genCase(t *rapid.T) Case {
 	cycles := !cycleOpen()
-	c := Case{Predefined: eighths(t, "predefined", 3)}
+	c := Case{Predefined: eighths(t, "predefined", 2)}
 	n := rapid.SampledFrom([]int{1, 2, 3, 4, 5, 6, 7, 8, 9, 10, 2, 3, 4, 10}).Draw(t, "n")
 	mode := rapid.SampledFrom([]string{"chain", "tree", "tree", "mixed", "mixed", "free", "free", "ring"}).Draw(t, "mode")
 	if !cycles && (mode == "free" || mode == "ring") {
@@ -174,6 +183,40 @@ func genCase(t *rapid.T) Case {
 				d.Elems = append(d.Elems, e)
 			}
 		}
+		// which attributes the multi-attribute elements populate: all of them, a drawn non-empty subset, or the
+		// pattern tied to the value code (no entry). CreateQuickStyle can only say it for spacing and indentation.
+		for _, e := range d.Elems {
+			if _, multi := MultiAttr[e]; !multi || (d.Via == "quick" && e != "spacing" && e != "indentation") {
+				continue
+			}
+			m := -1
+			switch e {
+			case "underline", "snapToGrid":
+				m = rapid.SampledFrom([]int{1, 1, 1, 2, -1}).Draw(t, "attrs:"+e)
+			case "borders":
+				switch rapid.SampledFrom(attrModes).Draw(t, "attrs:"+e) {
+				case "full":
+					m = 0xFF
+				case "subset":
+					sides := rapid.SampledFrom(masks4).Draw(t, "sides")
+					la := rapid.SampledFrom(append([]int{15, 15, 15, 15}, masks4...)).Draw(t, "lineattrs")
+					m = sides | la<<4
+				}
+			default:
+				switch rapid.SampledFrom(attrModes).Draw(t, "attrs:"+e) {
+				case "full":
+					m = fullMask(e)
+				case "subset":
+					m = rapid.SampledFrom(masks4[:fullMask(e)]).Draw(t, "mask")
+				}
+			}
+			if m >= 0 {
+				if d.Attrs == nil {
+					d.Attrs = map[string]int{}
+				}
+				d.Attrs[e] = m
+			}
+		}
 		d.EmptyP = eighths(t, "emptyP", 1)
 		d.EmptyR = eighths(t, "emptyR", 1)
 		defs[i] = d
@@ -198,7 +241,15 @@ func genCase(t *rapid.T) Case {
 	return c
 }
 
+var (
+	attrModes = []string{"full", "full", "full", "subset", "subset", "subset", "subset", "legacy"}
+	masks4    = []int{1, 2, 3, 4, 5, 6, 7, 8, 9, 10, 11, 12, 13, 14, 15}
+)
+
 func fixedCases() []Case {
+	if os.Getenv("VERIF_C14_NOFIXED") != "" { // building aid: what does the generator find on its own?
+		return nil
+	}
 	all := ElemNames
 	return []Case{
 		// the predefined registry alone
@@ -209,6 +260,20 @@ func fixedCases() []Case {
 			{ID: "B", Idx: 1, Type: "paragraph", BasedOn: "A", Elems: all[6:12], Via: "custom"},
 			{ID: "C", Idx: 2, Type: "paragraph", BasedOn: "B", Elems: all[9:15], Via: "add"},
 		}, Queries: []string{"A", "B", "C", "D"}},
+		// partially populated elements over fuller ancestors, at three levels: the result is the nearest element as it is
+		// (a line height without its rule over a parent that has a rule; one indent over three; one border side with two
+		// attributes over four full sides; a fill over fill+pattern; one font slot over four; bare w:u / w:snapToGrid over valued ones)
+		{Styles: []StyleDef{
+			{ID: "Base", Idx: 1, Type: "paragraph", Elems: []string{"spacing", "indentation", "borders", "shading", "snapToGrid", "underline", "font"}, Via: "add",
+				Attrs: map[string]int{"spacing": 15, "indentation": 7, "borders": 0xFF, "shading": 3, "snapToGrid": 1, "underline": 1, "font": 15}},
+			{ID: "Mid", Idx: 2, Type: "paragraph", BasedOn: "Base", Elems: []string{"spacing", "indentation", "borders", "shading", "snapToGrid", "underline", "font"}, Via: "add",
+				Attrs: map[string]int{"spacing": 4, "indentation": 2, "borders": 0x52, "shading": 1, "snapToGrid": 2, "underline": 2, "font": 2}},
+			{ID: "Leaf", Idx: 3, Type: "paragraph", BasedOn: "Mid", Elems: []string{"spacing", "alignment", "font"}, Via: "custom",
+				Attrs: map[string]int{"spacing": 10, "font": 8}},
+			{ID: "Leaf2", Idx: 4, Type: "paragraph", BasedOn: "Mid", Elems: []string{"alignment"}, Via: "add"},
+			{ID: "Q", Idx: 5, Type: "paragraph", BasedOn: "Base", Elems: []string{"spacing", "indentation"}, Via: "quick",
+				Attrs: map[string]int{"spacing": 2, "indentation": 1}},
+		}, Queries: []string{"Base", "Mid", "Leaf", "Leaf2", "Q", "Mid", "Base"}},
 		// grid flag inherited through a parent without paragraph properties (the path that works today)
 		{Styles: []StyleDef{
 			{ID: "P", Idx: 1, Type: "paragraph", Elems: []string{"bold"}, Via: "add"},
@@ -305,6 +370,53 @@ func diffSnap(before, after map[string]string) string {
 		}
 	}
 	return ""
+}
+
+// copyAll deep-copies every registered style (nothing shared with the registry).
+func copyAll(sm *style.StyleManager) map[string]*style.Style {
+	out := map[string]*style.Style{}
+	for _, s := range sm.GetAllStyles() {
+		out[s.StyleID] = deepCopy(reflect.ValueOf(s)).Interface().(*style.Style)
+	}
+	return out
+}
+
+// diffDeep compares the registry with a deep copy taken earlier, field by field, XMLName fields included.
+func diffDeep(before map[string]*style.Style, sm *style.StyleManager) string {
+	now := map[string]*style.Style{}
+	for _, s := range sm.GetAllStyles() {
+		now[s.StyleID] = s
+	}
+	var ids []string
+	for id := range before {
+		ids = append(ids, id)
+	}
+	for id := range now {
+		if _, ok := before[id]; !ok {
+			ids = append(ids, id)
+		}
+	}
+	sort.Strings(ids)
+	var out []string
+	for _, id := range ids {
+		b, okb := before[id]
+		n, okn := now[id]
+		switch {
+		case !okn:
+			out = append(out, fmt.Sprintf("style %q disappeared", id))
+		case !okb:
+			out = append(out, fmt.Sprintf("style %q appeared", id))
+		default:
+			fieldDiff(reflect.ValueOf(b), reflect.ValueOf(n), fmt.Sprintf("style %q", id), true, &out, 6)
+		}
+		if len(out) >= 6 {
+			break
+		}
+	}
+	if len(out) == 0 {
+		return ""
+	}
+	return "(before vs after) " + strings.Join(out, "; ")
 }
 
 func show(v string, ok bool) string {
@@ -449,6 +561,7 @@ func childMain() {
 func runHere(c Case, sm *style.StyleManager, reg registry, res *kit.Result) *kit.Result {
 	api := style.NewQuickStyleAPI(sm)
 	before := snapshotAll(sm)
+	beforeDeep := copyAll(sm)
 
 	// ---- labels from the case and the model
 	if c.Predefined {
@@ -475,6 +588,28 @@ func runHere(c Case, sm *style.StyleManager, reg registry, res *kit.Result) *kit
 		}
 		if len(d.Elems) == len(ElemNames) {
 			res.Label("style-with-all-elements")
+		}
+		// attribute population of the multi-attribute elements, read from the definition as registered
+		if def := reg[d.ID]; def != nil {
+			for _, e := range MultiElems {
+				a := attrsOf(def.Def, e)
+				if a == nil {
+					continue
+				}
+				switch {
+				case len(a) == attrTotal[e]:
+					res.Label("full-element")
+					res.Label("full:" + e)
+				case len(a) == 0:
+					res.Label("bare-element") // w:u / w:snapToGrid without a value
+				default:
+					res.Label("partial-element")
+					res.Label("partial:" + e)
+				}
+				if e == "spacing" && a["line"] != "" && a["lineRule"] == "" {
+					res.Label("spacing:line-without-rule")
+				}
+			}
 		}
 	}
 	for p, k := range children {
@@ -541,12 +676,21 @@ func runHere(c Case, sm *style.StyleManager, reg registry, res *kit.Result) *kit
 					res.Eval("C14.V1." + e)
 					w, okw := want.Elems[e]
 					g, okg := obs[e]
-					if okw != okg || w != g {
+					// field by field against the element of the defining style (every attribute, nested sides included)
+					var fd []string
+					if okw && okg {
+						fieldDiff(elemOf(got, e), elemOf(want.Src[e], e), e, false, &fd, 6)
+					}
+					if okw != okg || w != g || len(fd) > 0 {
 						from := "no style on the chain defines it"
 						if okw {
 							from = fmt.Sprintf("defined by %q at depth %d", want.Chain[want.From[e]], want.From[e])
 						}
-						res.Fail("C14.V1."+e, "%s element %s: got %s, should be %s (%s); chain %q ends in %s", tag, e, show(g, okg), show(w, okw), from, want.Chain, want.End)
+						attrs := ""
+						if len(fd) > 0 {
+							attrs = "; differing attributes (got vs reference): " + strings.Join(fd, ", ")
+						}
+						res.Fail("C14.V1."+e, "%s element %s: got %s, should be %s (%s)%s; chain %q ends in %s", tag, e, show(g, okg), show(w, okw), from, attrs, want.Chain, want.End)
 					}
 				}
 			}
@@ -603,10 +747,57 @@ func runHere(c Case, sm *style.StyleManager, reg registry, res *kit.Result) *kit
 					res.Label("snapToGrid-inherited")
 				}
 			}
+			// attribute-level classes: the nearest definition of a multi-attribute element lacks an attribute that a
+			// farther definition on the chain has (an attribute-wise merge would leak it into the result)
+			leak := 0
+			for _, e := range MultiElems {
+				k, ok := want.From[e]
+				if !ok {
+					continue
+				}
+				near := attrsOf(reg[want.Chain[k]].Def, e)
+				partial := len(near) < attrTotal[e]
+				if k > 0 && partial {
+					res.Label("inherit-partial-element")
+				}
+				first := true
+				for _, id := range want.Chain[k+1:] {
+					far := attrsOf(reg[id].Def, e)
+					if far == nil {
+						continue
+					}
+					missing := false
+					for a := range far {
+						if _, has := near[a]; !has {
+							missing = true
+						}
+					}
+					if missing {
+						leak++
+						res.Label("partial-over-ancestor")
+						res.Label("partial-over-ancestor:" + e)
+						if k > 0 {
+							res.Label("partial-over-ancestor:inherited") // the partial element is itself inherited
+						}
+						if first && len(far) == attrTotal[e] {
+							res.Label("partial-over-full-parent")
+							res.Label("partial-" + e + "-over-full-parent")
+						}
+						if e == "spacing" && near["line"] != "" && near["lineRule"] == "" && far["lineRule"] != "" {
+							res.Label("spacing:line-without-rule-over-rule")
+						}
+						break
+					}
+					if first && partial && len(far) < attrTotal[e] {
+						res.Label("partial-over-partial-parent")
+					}
+					first = false
+				}
+			}
 			if depth >= 2 && (inh > 0 || ovr > 0) {
 				res.Nontrivial = true
 			}
-			shape = append(shape, fmt.Sprintf("q%d:%s:%d:%d", depth, want.End, inh, ovr))
+			shape = append(shape, fmt.Sprintf("q%d:%s:%d:%d:%d", depth, want.End, inh, ovr, leak))
 		}
 
 		// V2: the two derived views
@@ -643,12 +834,15 @@ func runHere(c Case, sm *style.StyleManager, reg registry, res *kit.Result) *kit
 
 	// ---- V3: the queries changed nothing that is registered
 	res.Eval("C14.V3")
-	if d := diffSnap(before, snapshotAll(sm)); d != "" {
+	after := snapshotAll(sm)
+	if d := diffDeep(beforeDeep, sm); d != "" {
+		res.Fail("C14.V3", "the registry differs from the deep copy taken before the queries %q: %s", c.Queries, d)
+	} else if d := diffSnap(before, after); d != "" {
 		res.Fail("C14.V3", "the registry differs after the queries %q: %s", c.Queries, d)
 	}
 
-	// ---- V4: clone independence
-	checkClone(res, sm, before)
+	// ---- V4: clone independence (against the registry as it is now, so that a V3 failure is not reported twice)
+	checkClone(res, sm, after)
 	return res
 }
 
